@@ -157,9 +157,15 @@ def run_solve(case):
     seed = case["seed"]
     mesh = fem.Rectangle(n=2)
     region = fem.RegionQuad(mesh)
-    for cont in ("u", "u,p"):
+    # (u@int64 / u@float32: fields whose value arrays are integer (values=0 style start values) or single precision -- the
+    #  increment of the linear solve is a float64 quantity whatever the unknowns are stored as)
+    for cont in ("u", "u,p", "u@int64", "u@float32"):
         if cont == "u":
             field = fem.FieldContainer([fem.Field(region, dim=2, values=zoo.offarr(seed, 1200, (4, 2)))])
+        elif cont == "u@int64":
+            field = fem.FieldContainer([fem.Field(region, dim=2, values=np.round(3 * zoo.offarr(seed, 1200, (4, 2))).astype(np.int64))])
+        elif cont == "u@float32":
+            field = fem.FieldContainer([fem.Field(region, dim=2, values=zoo.offarr(seed, 1200, (4, 2)).astype(np.float32))])
         else:
             field = fem.FieldsMixed(region, n=2)
             field[0].values = zoo.offarr(seed, 1200, (4, 2))
@@ -178,6 +184,8 @@ def run_solve(case):
                 # the index lists in every order a caller may hand them over in (ext0 is aligned with dof0): ascending, descending,
                 # rotated -- e.g. dof0 concatenated from the boundaries of a dictionary
                 if (o0 == "desc" and size < 2) or ((o0, o1) != ("asc", "asc") and klab and size == 3):
+                    continue
+                if "@" in cont and ((o0, o1) != ("asc", "asc") or size == 3):
                     continue
                 dof0 = np.array(d0 if o0 == "asc" else d0[::-1], dtype=int)
                 d1 = sorted(set(range(N)) - set(d0))
